@@ -76,6 +76,7 @@ impl Certificate {
 
         let mut file = tokio::fs::File::create(filepath).await?;
         file.write_all(self.to_pem().as_bytes()).await?;
+        file.flush().await?;
 
         Ok(())
     }
@@ -250,6 +251,8 @@ impl CertificateChain {
         for cert in self.0.iter() {
             file.write_all(cert.to_pem().as_bytes()).await?;
         }
+
+        file.flush().await?;
 
         Ok(())
     }
